@@ -248,16 +248,26 @@ func OnProxyConnectResponse(_ context.Context, _ *url.URL, req *http.Request, co
 	}
 
 	// Body cannot be read from the CONNECT response due to use of closed network connection.
-	res := proxyutil.NewResponse(connectRes.StatusCode, body, req) //nolint:bodyclose // closing body has no effect
+	code := connectRes.StatusCode
+	if code < http.StatusOK {
+		// An informational response is not a final reply to CONNECT.
+		code = http.StatusBadGateway
+	}
+	res := proxyutil.NewResponse(code, body, req) //nolint:bodyclose // closing body has no effect
 	res.Header = connectRes.Header.Clone()
 	res.ContentLength = cl
 	return &connectError{res}
 }
 
-func maybeConnectErrorResponse(err error) *http.Response {
+func maybeConnectErrorResponse(req *http.Request, err error) *http.Response {
 	var martianErr *connectError
 	if errors.As(err, &martianErr) {
-		return martianErr.ConnectResponse()
+		res := martianErr.ConnectResponse()
+		// The response was built for the CONNECT request sent by the transport,
+		// it is returned in reply to the original request.
+		res.Request = req
+		res.Proto, res.ProtoMajor, res.ProtoMinor = req.Proto, req.ProtoMajor, req.ProtoMinor
+		return res
 	}
 	return nil
 }
